@@ -70,8 +70,11 @@ func run(t *rapid.T) {
 	tr := &trace{}
 	core.Eval()
 	nbuild := rapid.IntRange(0, maxBuild).Draw(t, "nbuild")
+	var prev *fam.OpDesc
 	for i := 0; i < nbuild; i++ {
-		ex := fam.Resolve(w, fam.DrawOp(t), -1)
+		d := fam.DrawSibling(t, prev)
+		prev = &d
+		ex := fam.Resolve(w, d, -1)
 		out := safeRun(ex)
 		tr.Build = append(tr.Build, ex.Desc)
 		if out.Panic != "" {
@@ -88,7 +91,9 @@ func run(t *rapid.T) {
 		n := rapid.IntRange(1, maxOps).Draw(t, "nops")
 		var prog []fam.OpDesc
 		for i := 0; i < n; i++ {
-			prog = append(prog, fam.DrawOp(t))
+			d := fam.DrawSibling(t, prev)
+			prev = &d
+			prog = append(prog, d)
 		}
 		tr.Programs = append(tr.Programs, prog)
 	}
